@@ -25,6 +25,11 @@ Proof. exact refuted_rules_ok. Qed.
     EVERY binding of its variables that satisfies its side conditions *)
 Theorem modelled_plan_rules_are_sound : Forall psound psound_rules.
 Proof. exact psound_rules_ok. Qed.
+(** and each of them keeps a buildable plan buildable: whenever the left-hand side can be built (every
+    expression mentions only columns of its input, join inputs have disjoint schemas), so can the
+    right-hand side (C17's subject, here for the rewritten plan) *)
+Theorem proved_plan_rewrites_keep_plans_buildable : Forall pbuildable psound_rules.
+Proof. exact psound_rules_buildable. Qed.
 (** the others are unsound, each with a concrete binding on which the two sides return different
     numbers of rows: a filter pushed below LIMIT / top-N (KF_C01_filter_below_limit) and a join
     condition pushed into the preserved side of an outer join (KF_C01_outer_join_condition_pushdown);
@@ -38,5 +43,6 @@ Proof. exact ppev_wf. Qed.
 Print Assumptions unrefuted_expression_rules_are_sound.
 Print Assumptions remaining_expression_rules_are_refuted.
 Print Assumptions modelled_plan_rules_are_sound.
+Print Assumptions proved_plan_rewrites_keep_plans_buildable.
 Print Assumptions remaining_plan_rules_are_refuted.
 Print Assumptions plan_meaning_is_well_formed.
